@@ -90,12 +90,12 @@ def run(cls, acts, n):
                   res = {'k': 'seq', 'q': idx(bounded(iter(r)))}
                   if type(r) is not cls:
                       res = {'k': 'err', 'e': 'result type %s' % type(r).__name__}
-              elif name == 'IterRemove':
+              elif name in ('IterRemove', 'RevIterRemove'):
                   F = set(args[0])
                   ev['f'] = [False] + [i in F for i in range(1, n + 1)]
                   ev['f'] = ev['f'][1:]
                   visited = []
-                  for x in itertools.islice(iter(obj), LIMIT):
+                  for x in itertools.islice(iter(obj) if name == 'IterRemove' else reversed(obj), LIMIT):
                       visited.append(x)
                       if x.i in F:
                           obj.remove(x)
